@@ -96,8 +96,8 @@ class TU:
         self.err = ''
 
     def label(self):
-        if self.group == 'conv':
-            return '%s:conv:%s' % (self.stack, self.src_stack)
+        if self.group in ('conv', 'wrap'):
+            return '%s:%s:%s' % (self.stack, self.group, self.src_stack)
         return '%s:%s' % (self.stack, self.group)
 
 
@@ -162,6 +162,8 @@ def gen_sources():
             write_if_changed(os.path.join(gen, '%s.%s.cpp' % (s.id, g)), pool.tu_source(g, s))
     for d, s in pool.conv_pairs():
         write_if_changed(os.path.join(gen, '%s.conv.%s.cpp' % (d.id, s.id)), pool.tu_source('conv', d, s))
+    for o, i, k in pool.wrap_pairs():
+        write_if_changed(os.path.join(gen, '%s.wrap.%s.cpp' % (o.id, i.id)), pool.tu_source('wrap', o, i))
     return gen
 
 
@@ -201,6 +203,12 @@ def build_world(world, config, groups, thorough=True, stacks=None, quiet=False):
                 fl = pool_flags + (cuda_includes() if (d.cuda or s.cuda) else [])
                 tus.append(TU('%s.conv.%s' % (d.id, s.id), os.path.join(gen, '%s.conv.%s.cpp' % (d.id, s.id)), fl,
                               'pool', d.id, 'conv', s.id))
+    if 'conv' in groups:
+        # the wrap group rides along with conv (hist world only)
+        for o, i, k in pool.wrap_pairs():
+            if o.id in selids and i.id in selids:
+                tus.append(TU('%s.wrap.%s' % (o.id, i.id), os.path.join(gen, '%s.wrap.%s.cpp' % (o.id, i.id)), pool_flags,
+                              'pool', o.id, 'wrap', i.id))
     # harness objects (never thread-instrumented)
     hflags = cflags + inc + ['-DSIM_HAVE_CUDA_SHIM'] + cuda_includes()
     sim = os.path.join(VERIF, 'sim')
